@@ -255,6 +255,9 @@ func c14Ops() []c14Op {
 		// "restore" writes: every slot that the alphabet can change can also be written back
 		// to the value it has in the committed base state (A: s0=1, s2=0; C: s0=0 is above, s2=0)
 		for k, v := range base[a].stor() {
+			if base[a] == nil {
+				break // C does not exist in the base state: its origin values are all zero, SetState(s0,0) covers it
+			}
 			if k == 1 {
 				continue // s1 is never written
 			}
@@ -968,7 +971,7 @@ func c14Configs(r *mc.R) []*c14Cfg {
 	deep, shallow := mc.Pick(r, 4, 5), mc.Pick(r, 3, 5)
 	return []*c14Cfg{
 		{Name: "hash+snapshot", Depth: deep, Snap: true},
-		{Name: "path", Depth: deep, Path: true},
+		{Name: "path", Depth: shallow, Path: true},
 		{Name: "hash+snapshot@A-destructed", Depth: shallow, Snap: true, Prefix: []string{"SelfDestruct(A)", "EndTx"}},
 		{Name: "path@A-destructed", Depth: deep, Path: true, Prefix: []string{"SelfDestruct(A)", "EndTx"}},
 		{Name: "path@A-two-slots-written", Depth: deep, Path: true, Prefix: []string{"SetState(A,s0,3)", "SetState(A,s2,4)", "EndTx"}},
